@@ -35,7 +35,7 @@ RULE = (
     "conflict / an excluded or unselected source item / >=2 jobs to synchronise in parallel exists; distinct by case hash."
 )
 CLASSES = [
-    "dry_into_remains_of_interrupted_job", "dry_bulk_stale_cache", "dry_clone", "dry_copy_file", "dry_copytree", "dry_doc_flat", "dry_doc_nested", "dry_conflict", "dry_job_level",
+    "dry_into_remains_of_interrupted_job", "dry_bulk_stale_cache", "parallel_overlapping_jobs", "dry_clone", "dry_copy_file", "dry_copytree", "dry_doc_flat", "dry_doc_nested", "dry_conflict", "dry_job_level",
     "dry_new_job_job_level", "deep_job", "deep_project", "exclude_in_clone", "exclude_in_merge", "exclude_in_copytree",
     "selection_ids", "selection_jobs", "parallel_2", "parallel_true", "dry_mixed_type_typeerror",
 ]
@@ -116,7 +116,62 @@ def _run_special(case, ctx):
         shutil.rmtree(base, ignore_errors=True)
 
 
+def _run_parallel_overlap(case, ctx):
+    """parallel: two existing jobs are synchronised at the same time, one finishing while the other is still in
+    its file loop (a custom strategy holds it there); the destination must be the one a sequential run gives."""
+    import os
+    import threading
+    import time
+
+    import signac
+    from signac import sync
+
+    base = ctx.tmpdir("c15p")
+    mms = []
+    try:
+        trees = {}
+        for mode in ("sequential", "parallel"):
+            src = signac.init_project(os.path.join(base, mode, "src"))
+            dst = signac.init_project(os.path.join(base, mode, "dst"))
+            for a in (0, 1):
+                js, jd = src.open_job({"a": a}).init(), dst.open_job({"a": a}).init()
+                for name in ("f.txt", "g.bin", "z.txt"):
+                    fsutil.write_file(js.fn(name), b"source %d" % a)
+                    fsutil.write_file(jd.fn(name), b"dest %d!!" % a)
+                fsutil.write_file(js.fn("signac_job_document.json"), json.dumps({"s": a, "both": {"x": 1}}).encode())
+                fsutil.write_file(jd.fn("signac_job_document.json"), json.dumps({"d": a, "both": {"y": 2}}).encode())
+            slow_id = src.open_job({"a": 1}).id
+            barrier = threading.Barrier(2)
+
+            def strategy(s, d, fn, mode=mode, slow_id=slow_id, barrier=barrier):
+                if mode == "parallel" and fn == "f.txt":
+                    try:
+                        barrier.wait(timeout=5)  # both jobs are inside their file loops now
+                    except threading.BrokenBarrierError:
+                        pass
+                    if s.id == slow_id:
+                        time.sleep(0.4)  # the other job finishes meanwhile
+                return True
+
+            exclude = case.get("exclude", ["nothing_matches_this"])
+            s2, d2 = signac.Project(src.path), signac.Project(dst.path)
+            try:
+                sync.sync_projects(s2, d2, strategy=strategy, exclude=list(exclude) if isinstance(exclude, list) else exclude,
+                                   parallel=2 if mode == "parallel" else False, check_schema=False)
+            except Exception as e:
+                mms.append(Mismatch("parallel_outcome", f"{mode} sync of two overlapping jobs raised {type(e).__name__}: {e}"))
+            trees[mode] = sp.strip_mtime(sp.snap(dst.path))
+        d = _changed(trees["sequential"], trees["parallel"])
+        if d:
+            mms.append(Mismatch("parallel_tree_differs", f"parallel=2 with exclude={case.get('exclude')!r} leaves another destination than the sequential run (sequential -> parallel): {fsutil.fmt_diff(d)}"))
+        return {"mismatches": mms, "classes": ["parallel_overlapping_jobs"], "nontrivial": True}
+    finally:
+        shutil.rmtree(base, ignore_errors=True)
+
+
 def run_case(case, ctx):
+    if case.get("special") == "parallel_overlap":
+        return _run_parallel_overlap(case, ctx)
     if case.get("special"):
         return _run_special(case, ctx)
     plan = sp.analyse(case)
@@ -230,6 +285,10 @@ def _run(case, ctx, plan, src_root, dst_root, bases):
                 info = (f"file {rel!r} of job {j['sp']!r}: equal size ({len(fs['src'])}B) and mtime, different bytes; "
                         f"strategy={opts['strategy']!r}; {desc}")
                 now = tree.get(rel)
+                calls = out.get("strategy_calls")
+                if calls is not None and out["kind"] == "returns" and not any(c[0] == j["id"] and c[1] in (rel, rel.split("/")[-1]) for c in calls):
+                    # comparing by content is observable in a dry run as well: the custom strategy is asked about the file
+                    mms.append(Mismatch("deep_strategy_not_consulted", f"deep=True, the call returned, but the custom strategy was never asked about this file: {info}"))
                 if v is None:
                     if expected == {"FileSyncConflict"} and out["kind"] != "FileSyncConflict":
                         mms.append(Mismatch("deep_conflict_missed", f"deep=True, no strategy: FileSyncConflict expected, got {out['kind']} {out['msg']}: {info}"))
@@ -341,6 +400,9 @@ for _entry in ("Project.sync", "sync_projects", "Job.sync", "sync_jobs"):
         {"jobs": [_DEEP], "src_pdoc": None, "dst_pdoc": None, "options": _o(deep=True, entry=_entry)},
         {"jobs": [_DEEP], "src_pdoc": None, "dst_pdoc": None, "options": _o(deep=True, strategy="always", entry=_entry)},
         {"jobs": [_DEEP], "src_pdoc": None, "dst_pdoc": None, "options": _o(deep=True, strategy="never", entry=_entry)},
+        # deep in a dry run: the conflict is reported / the strategy is asked, nothing changes
+        {"jobs": [_DEEP], "src_pdoc": None, "dst_pdoc": None, "options": _o(deep=True, dry_run=True, entry=_entry)},
+        {"jobs": [_DEEP], "src_pdoc": None, "dst_pdoc": None, "options": _o(deep=True, dry_run=True, strategy={"table": {"f.txt": True, "g.bin": False}}, entry=_entry)},
         # exclude in an existing job (top level, nested name, copied sub-directory) and in a new job
         {"jobs": [_OLD, _NEW], "src_pdoc": None, "dst_pdoc": None, "options": _o(exclude="g.*", entry=_entry)},
         {"jobs": [_OLD, _NEW], "src_pdoc": None, "dst_pdoc": None, "options": _o(exclude=["h.*", "f\\.txt"], entry=_entry)},
@@ -372,6 +434,8 @@ SPECIAL = [
     {"special": "remains", "entry": "Job.sync", "src_doc": {"x": 1}, "dst_doc": None},
     {"special": "remains", "entry": "sync_jobs", "src_doc": {"x": 1}, "dst_doc": {"y": 2}},
     {"special": "remains", "entry": "Job.sync", "src_doc": None, "dst_doc": None},
+    {"special": "parallel_overlap", "exclude": ["nothing_matches_this"]},
+    {"special": "parallel_overlap", "exclude": "z.*"},
     {"special": "bulk", "entry": "sync_projects", "n": 513, "cached": 3},
     {"special": "bulk", "entry": "Project.sync", "n": 520, "cached": 10, "dst_cache": False},
     {"special": "bulk", "entry": "sync_projects", "n": 700, "cached": 150, "src_cache": False},
@@ -382,7 +446,7 @@ def run(ctx):
     if ctx.worker == 0:
         for c in CONSTRUCTED:
             ctx.apply(c)
-    for i, c in enumerate(SPECIAL if ctx.tier != "quick" else SPECIAL[:5]):
+    for i, c in enumerate(SPECIAL if ctx.tier != "quick" else SPECIAL[:7]):
         if i % ctx.nworkers == ctx.worker:
             ctx.apply(c)
     drive(ctx, sp.pair_cases("c15"), 750 if ctx.tier == "quick" else 9000, ctx.apply)
